@@ -341,9 +341,7 @@ Proof.
     try (simpl; eapply ext_trans; [exact H1|]; apply ext_with_session; [reflexivity|simpl; lia]).
   pose proof (st_at_some_lt _ _ _ Epi) as Hlt.
   destruct (negb match run_status (session_ x1) c with Some RFailed => true | _ => false end).
-  - destruct (match get_run (session_ x1) pi with
-              | Some r0 => match get_flow a (r_flow r0) with Some _ => false | None => true end
-              | None => true end).
+  - destruct (run_flow_unusable a (session_ x1) pi).
     + simpl. eapply ext_trans; [exact H1|]. apply ext_fail_run; exact Hlt.
     + pose proof (find_resume_exit_ext a x1 pi false [] Hlt) as Hf.
       pose proof (find_resume_exit_shape a x1 pi false []) as Hs.
@@ -455,9 +453,7 @@ Proof.
   assert (Hfs : forall c, Resumed (ROk (fail_session {| session_ := s; sprint_ := empty_sprint |} wi c)) = Resumed (ROk x') ->
                           ext a {| session_ := s; sprint_ := empty_sprint |} x').
   { intros c H; inversion H; subst. apply fail_session_ext. exact Hlt. }
-  destruct (match get_run s wi with
-            | Some rn => match get_flow a (r_flow rn) with Some _ => false | None => true end
-            | None => true end); [apply Hfs|].
+  destruct (run_flow_unusable a s wi); [apply Hfs|].
   destruct (Z.of_nat (count_waits s) >=? max_resumes (a_opts a))%Z; [apply Hfs|].
   destruct (path_location a s wi) as [[pos n]|]; [|apply Hfs].
   destruct (n_router n) as [[[w|] rres rcats rcases rdef]|]; try apply Hfs.
